@@ -105,6 +105,14 @@ pub fn judge(c: &Case) -> Verdict {
             let _ = catch(|| parse(&format!("{k} {junk}")).map(|_| ()).map_err(|e| e.to_string()));
         }
     }
+    // another quarter is preceded by accepted inputs, among them ones that earn a warning
+    if stable_hash(&c.input) % 4 == 1 {
+        let ok = ["-name core -threads 4", "-true -depth", "-name x -o ( -depth -threads 8 ) -print", "-threads 2 -name y", "-uid 1 -printf '%p\\n'"];
+        let k = (stable_hash(&c.input) / 4 % 5) as usize;
+        for t in [ok[k], ok[(k + 1) % 5]] {
+            let _ = catch(|| parse(t).map(|_| ()).map_err(|e| e.to_string()));
+        }
+    }
     let r = match catch(|| parse(&c.input)) {
         Ok(r) => r,
         Err(p) => return Verdict::Fail(format!("parse panicked on {:?}: {p}", c.input)),
@@ -246,7 +254,7 @@ pub fn run(ctx: &Ctx) -> Report {
     total.merge(rnd);
     Report {
         stats: total,
-        rule: "every argument-taking keyword (tests, actions, options) with its argument missing (end of input or before ')'; also the second argument of -xattr-match/-fprintf) or replaced by a word invalid from its first character for that argument language (x, @1, ?, k5 for numbers/sizes/times; 1, Z for types; x, 9 for modes; -5 for unsigned), placed after 0..3 valid primaries and before 0..2 more, optionally inside parentheses; unknown words with no keyword prefix at random positions. Oracle on the Display text of the error: non-empty; contains the keyword; quotes the offending word in backquotes (an empty pair when missing); for unknown words quotes the word; every backquoted segment occurs in the input. Non-trivial: the failing primary is not first, or the argument is missing. Distinct: by input.".into(),
+        rule: "every argument-taking keyword (tests, actions, options) with its argument missing (end of input or before ')'; also the second argument of -xattr-match/-fprintf) or replaced by a word invalid from its first character for that argument language (x, @1, ?, k5 for numbers/sizes/times; 1, Z for types; x, 9 for modes; -5 for unsigned), placed after 0..3 valid primaries and before 0..2 more, optionally inside parentheses; unknown words with no keyword prefix at random positions. Oracle on the Display text of the error: non-empty; contains the keyword; quotes the offending word in backquotes (an empty pair when missing); for unknown words quotes the word; every backquoted segment occurs in the input. A quarter of the cases are preceded on the same thread by rejected inputs of the same keyword, another quarter by accepted inputs including ones that earn a misplaced-option warning: the message must not depend on earlier calls. Non-trivial: the failing primary is not first, or the argument is missing. Distinct: by input.".into(),
         assumptions: vec!["string-valued arguments accept any word, so only 'missing' applies to them; format strings are not used for 'invalid from the first character'".into()],
         exhaustive: false,
     }
